@@ -35,11 +35,12 @@ Theorem blocked_streams_resume_on_window_open_partial : forall i s x n rest,
 Proof. exact any_choice_sends. Qed.
 Print Assumptions blocked_streams_resume_on_window_open_partial.
 
-(** no lost wake-up of the sending loop: whenever the loop is parked on _sendingDeferred (no callLater pending),
+(** no lost wake-up of the sending loop: whenever the loop is parked on _sendingDeferred (no callLater pending and
+    not waiting behind a paused transport),
     every open stream is blocked in the priority tree -- every event that unblocks a stream (a write with window,
     finish, WINDOW_UPDATE on either level, a SETTINGS_INITIAL_WINDOW_SIZE change) also wakes a parked loop *)
 Theorem parked_sender_means_every_stream_blocked_partial : forall w apps ops,
   let s := run w apps ops in
-  scheduled s = false -> Forall (fun x => blocked x = true) (streams s).
+  scheduled s = false -> chained s = false -> Forall (fun x => blocked x = true) (streams s).
 Proof. exact run_parked. Qed.
 Print Assumptions parked_sender_means_every_stream_blocked_partial.
